@@ -430,12 +430,26 @@ impl Scenario for Roundtrip {
                         }
                         5..=7 => {
                             let mx = if r.chance(1, 10) { 65535 } else { 3000 };
-                            let local = if r.chance(1, 12) { big_extra(&mut r) } else { gen_extra_valid(&mut r, mx) };
+                            // malformed / reserved records must be refused (truncated tail, ZIP64 id, reserved ids)
+                            let bad_extra = |r: &mut Rng| -> Vec<u8> {
+                                let mut v = gen_extra_valid(r, 60);
+                                match r.below(4) {
+                                    0 => v.extend_from_slice(&[0xef, 0xbe, 9, 0, 1, 2]),
+                                    1 => v.extend_from_slice(&[1, 0, 8, 0, 0, 0, 0, 0, 0, 0, 0, 0]),
+                                    2 => {
+                                        v.extend_from_slice(&r.pickc(&[0x0007u16, 0x5455, 0x9901, 0x000a, 5, 0x7875]).to_le_bytes());
+                                        v.extend_from_slice(&[2, 0, 1, 2]);
+                                    }
+                                    _ => v.push(0xef),
+                                }
+                                v
+                            };
+                            let local = if r.chance(1, 12) { big_extra(&mut r) } else if r.chance(1, 10) { bad_extra(&mut r) } else { gen_extra_valid(&mut r, mx) };
                             ops.push(Op::StartExtra { name, o });
                             ops.push(Op::Write { c: Content::Lit(Hex(local.clone())), split: gen_split(&mut r, local.len() as u64) });
                             if r.chance(1, 2) {
                                 ops.push(Op::EndLocal);
-                                let central = if r.chance(1, 12) { big_extra(&mut r) } else { gen_extra_valid(&mut r, mx) };
+                                let central = if r.chance(1, 12) { big_extra(&mut r) } else if r.chance(1, 8) { bad_extra(&mut r) } else { gen_extra_valid(&mut r, mx) };
                                 ops.push(Op::Write { c: Content::Lit(Hex(central)), split: vec![] });
                             }
                             ops.push(Op::EndExtra);
